@@ -11,6 +11,13 @@ Open Scope Z_scope.
 Theorem C01_generated_cfg_good : cfg_good the_cfg = true.
 Proof. reflexivity. Qed.
 
+(* what the writer packs does not depend on process configuration: Record._pack / GroupedRecord._pack leave a field out
+   only when the caller passes excluded_fields (record comparison does, RecordPacker.pack_obj never does) and do not read
+   the ignored-fields setting themselves -- so the model's pack_rec, which has no such parameter, is the function the
+   writer runs under EVERY setting of FLOW_RECORD_IGNORE / set_ignored_fields_for_comparison *)
+Theorem C01_generated_pack_is_config_free : pack_is_config_free = true.
+Proof. reflexivity. Qed.
+
 (* HEADLINE: for every descriptor-hash function, every nesting bound and EVERY sequence of items (plain, nested,
    grouped; any field types of the typed fragment; any values) that satisfies the executable side conditions
    [stream_okb] (values are of their declared type and inside msgpack's 32-bit length limits; within one item no two
